@@ -255,7 +255,26 @@ def b3(ctx, rid):
             t = f.blocks[j]['t']
             if t['k'] == 'switch' and op_local(t['o']) in carry:
                 controls.add(c.bb)
-    if all(c.bb in used or c.bb in controls for c in calls):
+    # `merged` may only be reported after every component was merged: a return value other than the constant false that is
+    # reachable around a component merge (e.g. `Some(bloom) if bloom.is_empty() => true`) leaves that component without the
+    # other filter's keys while the range / bloom next to it already covers them
+    skip_true = None
+    for c in calls:
+        free = f.reach_from([0], avoid_exit=[c.bb])
+        for (bb, si, kind, r) in f.defs().get(0, []):
+            if bb not in f.reachable() or bb not in free:
+                continue
+            if kind == 'assign' and r['k'] == 'use' and op_const(r['o']) is not None and not op_const(r['o']).get('int'):
+                continue    # false
+            if kind == 'call' and r.bb == c.bb:
+                continue
+            if kind == 'call' and r in calls and r.bb in free:
+                # the other component's own result, computed without this one having been merged: fine only if it was false (short-circuit)
+                continue
+            skip_true = (c, bb)
+    if skip_true is not None:
+        ctx.bad(rid, 'merge-result-conjunction', f.where(skip_true[1]), 'CombinedFilter::checked_add_assign can report `merged` on a path that did not merge the `%s` component: the merged filter answers `absent` for the other filter\'s keys through that component' % (sorted(prims.field_of_receiver(f, skip_true[0])) or ['?'])[0])
+    elif all(c.bb in used or c.bb in controls for c in calls):
         ctx.ok(rid, 'merge-result-conjunction', f.where(), 'the merge result depends on every component merge')
     else:
         ctx.bad(rid, 'merge-result-conjunction', f.where(), 'a component merge result is ignored: a failed component merge is reported as success')
@@ -1041,6 +1060,27 @@ def b17(ctx, rid):
         raise core.AnchorLost('Storage as BloomProvider::get_filter: %d' % n)
 
 
+def b18(ctx, rid):
+    """`a filter that is missing or unknown answers need-additional-check`: a range filter restored from index bytes is the
+    deserialised one or the restore fails (and the index is regenerated).  An uninitialised RangeFilterInner answers
+    NotContains for every key, so from_raw never substitutes a fresh one for bytes it could not read."""
+    prog = ctx.prog
+    n = 0
+    for f in prog.fns.values():
+        if f.file != 'src/filter/range.rs' or f.id != prog.fns[f.id].root or not f.id.endswith('::from_raw'):
+            continue
+        n += 1
+        key = 'restored-range-is-the-stored-one|%s' % f.id
+        fresh = [c for g in prog.family(f.id) for c in prog.fns[g].calls if c.bb in prog.fns[g].reachable()
+                 and ((c.name in ('new', 'default') and (c.path.startswith('filter::range::') or any(t.startswith('filter::range::') or ('RangeFilter' in t and 'Default' in t) for t in prog.resolve(c)))) or (c.name in ('unwrap_or_default', 'unwrap_or_else', 'unwrap_or') and 'RangeFilter' in c.full))]
+        if fresh:
+            ctx.bad(rid, key, fresh[0].where(), 'from_raw can answer with a freshly constructed (uninitialised) range filter (`%s`): such a filter answers `definitely absent` for every key of the blob' % fresh[0].name)
+        else:
+            ctx.ok(rid, key, f.where(), 'the restored filter is built from the deserialised value only')
+    if n < 1:
+        raise core.AnchorLost('from_raw in src/filter/range.rs: %d' % n)
+
+
 RULES = [
     Rule('C10.B1', 'every `definitely absent` answer lies in its owner and is controlled by that owner\'s justifying test; defaults are NeedAdditionalCheck', b1, 11),
     Rule('C10.B2', 'filter.add(key) dominates every insertion into the in-memory header map', b2, 2),
@@ -1058,5 +1098,6 @@ RULES = [
     Rule('C10.B15', 'a child slot of the closed list is only filled in add_child (whose filter merge B4 verifies)', b15, 1),
     Rule('C10.B16', 'the bloom offset reported by the filter (de)serializer equals the position of the bloom bytes (affine layout algebra)', b16, 2),
     Rule('C10.B17', 'the filter a storage reports for itself is None or built from the closed-blob root filter, never the active filter alone', b17, 1),
+    Rule('C10.B18', 'a range filter restored from bytes is the deserialised one or an error, never a fresh (all-absent) filter', b18, 1),
     Rule('C10.B9', 'the range merge can extend both bounds in one call', b9, 1),
 ]
